@@ -208,6 +208,10 @@ func oracle(c *octx) *eng.Violation {
 		return first(c.mainEq("behaviour", projFull, false), c.lanesEq("item-behaviour", projFull, false), c.slots("slot"), c.inFlight("concurrency"))
 	case "C20":
 		return c.waits()
+	case "C10":
+		return first(c.mainEq("visit-order", projFull, false), c.lanesEq("item-trace", projFull, false), c.outcome("outcome", true, true), c.storeEq())
+	case "C11":
+		return c.batchCancel()
 	case "C17":
 		return first(c.mainEq("payload", projC17, false), c.lanesEq("item-payload", projC17, false), c.slots("slot"))
 	case "C18":
@@ -664,4 +668,86 @@ func (c *octx) waits() *eng.Violation {
 		}
 	}
 	return nil
+}
+
+// ---- C10: store identity and contents ------------------------------------------
+
+func (c *octx) storeEq() *eng.Violation {
+	for _, e := range c.res.Events {
+		if (e.Kind == "prep_start" || e.Kind == "post_start") && e.S1 != "S0" {
+			return c.viol("store-identity", "%s of node %d received store %s, not the store given to the outermost run", e.Kind, e.N, e.S1)
+		}
+	}
+	if c.obs.Store != c.mod.Store {
+		return c.viol("store-contents", "store after the run: {%s}, the flattened interpretation gives {%s}", c.obs.Store, c.mod.Store)
+	}
+	return nil
+}
+
+// ---- C11: batch cancellation ----------------------------------------------------
+
+func (c *octx) batchCancel() *eng.Violation {
+	for i := range c.mod.Runs {
+		or := c.obs.Runs[i]
+		e := or.End
+		pre := c.sc.Ctx.Kind == "precancel"
+		if !pre && len(or.Cancels) == 0 {
+			continue
+		}
+		var k simrt.Event
+		if !pre {
+			k = or.Cancels[0]
+		}
+		for _, bv := range c.batchViews() {
+			if bv.run != i {
+				continue
+			}
+			mb := bv.mb
+			after := map[string]int{}
+			for _, ev := range bv.evs {
+				if ev.Kind != "exec_start" || (!pre && ev.Seq < k.Seq) {
+					continue
+				}
+				after[ev.Task]++
+				switch {
+				case pre:
+					return c.viol("item-started-after-cancel", "batch node %d: the context was cancelled before the run, yet exec of item %d attempt %d was started", mb.N, ev.I-1, ev.A)
+				case ev.Task == k.Task:
+					return c.viol("cancelling-worker-continued", "batch node %d: worker %s, inside whose callback the context was cancelled, started item %d attempt %d afterwards", mb.N, ev.Task, ev.I-1, ev.A)
+				case after[ev.Task] > 1:
+					return c.viol("items-started-after-cancel", "batch node %d (concurrency %d): task %s started %d executions after the cancellation (at most one already-committed execution per task that did not cancel itself is allowed)", mb.N, mb.Conc, ev.Task, after[ev.Task])
+				}
+			}
+			if e.S3 == "matches-ctx" {
+				continue
+			}
+			if e.S2 != "nil" {
+				return c.viol("cancel-wrong-error", "batch node %d: the cancelled run returned error %q, which does not match the context's error", mb.N, e.S2)
+			}
+			if len(bv.post) != 1 {
+				return c.viol("cancel-post-count", "batch node %d: the cancelled run returned success but post was called %d times", mb.N, len(bv.post))
+			}
+		}
+		// with nothing sleeping, the run ends at the cancellation instant even if a retry wait was pending
+		if !pre {
+			slow := false
+			for _, n := range c.sc.Nodes {
+				for _, vs := range n.Visits {
+					for _, it := range vs.Items {
+						for _, eo := range it.Exec {
+							slow = slow || eo.SleepMs > 0
+						}
+						if it.Fb != nil {
+							slow = slow || it.Fb.SleepMs > 0
+						}
+					}
+					slow = slow || vs.Post.SleepMs > 0 || vs.Prep.SleepMs > 0
+				}
+			}
+			if !slow && e.T != k.T {
+				return c.viol("cancel-not-prompt", "the context was cancelled at %dus; with no callback consuming time the run still returned only at %dus", k.T/1000, e.T/1000)
+			}
+		}
+	}
+	return c.slotsHonest()
 }
